@@ -56,6 +56,11 @@ CHECKS = {
             "Every tree up to the node bound (quick 4, thorough 5) over ten leaf forms (plain, 2- and 4-byte characters, double / single quoted with escapes, literal block, integers, anchored scalars with a non-ASCII anchor name, aliases) under 36 layouts (LF | CRLF | CR) x (indent 1,2,3) x (comments before/after nodes) x (wide spacing), block and flow. Each document is read into a tree whose every leaf, item, key and value is Spanned: every referenced/defined location must lie inside the input with line, column, character offset and byte offset denoting the same position (recomputed from the text), must equal the generator's position of that node (alias: use site = the alias token, definition site = the anchored node), and for scalars the byte range must be exactly the node's source token. Then every value leaf in turn is replaced by a non-integer against a typed target: the error location must be that node's position; every tree with an alias of an anchored scalar is typed so that the alias position fails: Error::locations() must be (alias token, anchored node). Hand-built families: error through an alias in mapping-value position, values reached through a merge (use site = the merge entry, definition site = the anchored entry), all under every layout.",
             "Trusted: saphyr-parser events (generator self-check). Conventions: a node's position is where its content token starts (after anchor/tag); block scalars (|, >) are only checked for consistency because the parser places them at their first content line; merged keys are checked for consistency and definition site only.",
             "DESIGN.md §3 C16"),
+    "C06": ("model_checking",
+            "complete enumeration of the finite product token x style x tag x target x option vector against table-driven reference functions; all byte strings / all short strings for base64",
+            "About 590 tokens (every integer-width boundary 2^k-1, 2^k, 2^k+1 for k in 7..128 in decimal, 0x, 0o, 0b with +/-; separators, leading zeros, legacy octal, malformed neighbours; YAML 1.1/1.2 booleans in all spellings and near misses; float forms incl. .inf/.nan variants, 17-digit and f32 midpoint literals; null-likes; chars; look-alike strings) x 5 scalar styles x 8 tags x 22 targets (i8..i128, u8..u128, f32, f64, bool, char, String, Cow<str>, Option<String>, Option<i32>, (), untyped tree, serde_json::Value, ByteBuf) x option vectors (quick 7, thorough all 16 combinations of strict_booleans, no_schema, legacy_octal_numbers, ignore_binary_tag_for_string), each cell at document root and embedded in a sequence and a mapping. Reference functions written from the documentation give must-accept-with-exact-value / must-reject / if-accepted-then-exact / unspecified; additionally root and embedded results must agree and a flag may change a cell only inside its documented domain. !!binary: every byte string up to 2 (thorough 3) bytes round-trips through canonical base64; every string up to 5 (thorough 6) symbols over {A,B,Q,g,/,+,=,space,newline,-,_,z} is accepted exactly when the base64 crate's strict STANDARD engine accepts it after white-space removal.",
+            "Trusted: the reference tables (DESIGN.md §6b) - definite only where README / rustdoc are; Rust's str::parse for correctly rounded floats; the base64 crate as strict reference.",
+            "DESIGN.md §3 C06"),
     "C12": ("model_checking",
             "bounded-exhaustive enumeration of scalar values x positions x serializer option vectors, identity round-trip oracle on the real serializer and deserializer",
             "All strings up to the length bound over a 52-symbol adversarial alphabet plus 150 look-alike words, in 12 positions (root, sequence item, nested item, map value/key, flow item/value/key, struct field, newtype/tuple variant payload, map inside sequence) under every combination of quote_all, yaml_12, prefer_block_scalars, compact_list_indent, tagged_enums x indent steps x two fold widths; all integer boundaries of every width; a complete f32 sub-lattice (thorough: all 2^32 patterns) and an f64 boundary lattice; chars, unit, options, byte arrays. Each value is serialized by the real serializer, must scan as exactly one document in saphyr-parser and must read back as the identical value; emitted floats must match the YAML float grammar.",
